@@ -1,5 +1,6 @@
 import GeoVerif.FP.F64
 import GeoVerif.Model.MathF
+import GeoVerif.Model.Accum
 /-!
 # PolygonAreaT: bookkeeping around an abstract geodesic/rhumb backend
 
@@ -64,28 +65,32 @@ structure State where
   crossings : Int := 0
   areasum : Rat := 0
   perimsum : Rat := 0
-  lon0 : F64 := F64.pzero
-  lon1 : F64 := F64.pzero
+  lat0 : F64 := F64.nan
+  lon0 : F64 := F64.nan
+  lat1 : F64 := F64.nan
+  lon1 : F64 := F64.nan
   polyline : Bool := false
 
+/-- the constructor: `Clear()` on an object whose mode is `polyline` -/
 def init (polyline : Bool) : State := { polyline := polyline }
 
-/-- `Clear()` -/
+/-- `Clear()`: counters and sums zero, the four coordinates NaN; the mode is kept -/
 def clear (st : State) : State := init st.polyline
 
 /-- `AddPoint(lat, lon)`; `(s12, S12)` = what the backend's inverse returns for the edge from the current vertex -/
-def addPoint (st : State) (lon : F64) (s12 S12 : Rat) : State :=
-  if st.num = 0 then { st with num := 1, lon0 := lon, lon1 := lon }
+def addPoint (st : State) (lat lon : F64) (s12 S12 : Rat) : State :=
+  if st.num = 0 then { st with num := 1, lat0 := lat, lon0 := lon, lat1 := lat, lon1 := lon }
   else
     { st with
       num := st.num + 1
       perimsum := st.perimsum + s12
       areasum := if st.polyline then st.areasum else st.areasum + S12
       crossings := if st.polyline then st.crossings else st.crossings + transit st.lon1 lon
+      lat1 := lat
       lon1 := lon }
 
-/-- `AddEdge(azi, s)`; `lon2`, `S12` = what the backend's direct solution returns -/
-def addEdge (st : State) (s : Rat) (lon2 : F64) (S12 : Rat) : State :=
+/-- `AddEdge(azi, s)`; `lat2`, `lon2`, `S12` = what the backend's direct solution returns; ignored before the first point -/
+def addEdge (st : State) (s : Rat) (lat2 lon2 : F64) (S12 : Rat) : State :=
   if st.num = 0 then st
   else
     { st with
@@ -93,6 +98,7 @@ def addEdge (st : State) (s : Rat) (lon2 : F64) (S12 : Rat) : State :=
       perimsum := st.perimsum + s
       areasum := if st.polyline then st.areasum else st.areasum + S12
       crossings := if st.polyline then st.crossings else st.crossings + transitdirect st.lon1 lon2
+      lat1 := lat2
       lon1 := lon2 }
 
 structure Result where
@@ -124,5 +130,93 @@ def testEdge (st : State) (A : Rat) (s : Rat) (lon2 : F64) (S12 : Rat) (reverse 
   else
     let crossings := st.crossings + transitdirect st.lon1 lon2 + transit lon2 st.lon0
     ⟨st.num + 1, some (st.perimsum + s + k2.1), some (some (areaReduce (st.areasum + S12 + k2.2) A crossings reverse sign))⟩
+
+/-! ## whole edit histories over an arbitrary solver -/
+
+/-- the six public operations of an edit history -/
+inductive Op where
+  | clear
+  | addPoint (lat lon : F64)
+  | addEdge (azi s : F64)
+  | compute (reverse sign : Bool)
+  | testPoint (lat lon : F64) (reverse sign : Bool)
+  | testEdge (azi s : F64) (reverse sign : Bool)
+
+/-- the solver behind the polygon (Geodesic, GeodesicExact, Rhumb, or anything else):
+    `inverse lat1 lon1 lat2 lon2 = (s12, S12)`, `direct lat1 lon1 azi s = (lat2, lon2, S12)` (longitude unrolled) -/
+structure Backend where
+  inverse : F64 → F64 → F64 → F64 → F64 × F64
+  direct : F64 → F64 → F64 → F64 → F64 × F64 × F64
+
+/-- one operation: the new state and, for the three queries, what is returned -/
+def exec (B : Backend) (A : Rat) (st : State) : Op → State × Option Result
+  | .clear => (clear st, none)
+  | .addPoint lat lon =>
+    let k := B.inverse st.lat1 st.lon1 lat lon
+    (addPoint st lat lon (toRat k.1) (toRat k.2), none)
+  | .addEdge azi s =>
+    let d := B.direct st.lat1 st.lon1 azi s
+    (addEdge st (toRat s) d.1 d.2.1 (toRat d.2.2), none)
+  | .compute rv sg =>
+    let k := B.inverse st.lat1 st.lon1 st.lat0 st.lon0
+    (st, some (compute st A rv sg (toRat k.1) (toRat k.2)))
+  | .testPoint lat lon rv sg =>
+    let k1 := B.inverse st.lat1 st.lon1 lat lon
+    let k2 := B.inverse lat lon st.lat0 st.lon0
+    (st, some (testPoint st A lon rv sg (toRat k1.1, toRat k1.2) (toRat k2.1, toRat k2.2)))
+  | .testEdge azi s rv sg =>
+    let d := B.direct st.lat1 st.lon1 azi s
+    let k2 := B.inverse d.1 d.2.1 st.lat0 st.lon0
+    (st, some (testEdge st A (toRat s) d.2.1 (toRat d.2.2) rv sg (toRat k2.1, toRat k2.2)))
+
+/-- the state after a history -/
+def run (B : Backend) (A : Rat) (st : State) (ops : List Op) : State :=
+  ops.foldl (fun s op => (exec B A s op).1) st
+
+/-- the state after every operation together with what the operation returned -/
+def trace (B : Backend) (A : Rat) : State → List Op → List (State × Option Result)
+  | _, [] => []
+  | st, op :: ops => exec B A st op :: trace B A (exec B A st op).1 ops
+
+/-! ## `AreaReduce` on the two-word accumulator and on a plain `real` (bit level) -/
+
+/-- `Accumulator::remainder(y)`: `_s = remainder(_s, y); Add(0)` -/
+def accRemainder (a : Accum.Acc) (y : F64) : Accum.Acc := Accum.add ⟨F64.remainder a.s y, a.t⟩ 0
+
+/-- `(area < 0 ? 1 : -1) * _area0/2` -/
+def halfStep (neg : Bool) (A : F64) : F64 := ((if neg then (1 : F64) else F64.neg 1) * A) / 2
+
+/-- `AreaReduce(Accumulator&, crossings, reverse, sign)`: stage 1, remainder and the odd-crossing correction -/
+def adjAcc (a : Accum.Acc) (A : F64) (crossings : Int) : Accum.Acc :=
+  let a := accRemainder a A
+  if crossings % 2 ≠ 0 then Accum.add a (halfStep (F64.lt a.s 0) A) else a
+
+/-- stage 2: `if (!reverse) area *= -1` -/
+def orientAcc (rv : Bool) (a : Accum.Acc) : Accum.Acc := if !rv then Accum.negate a else a
+
+/-- stage 3: the window, `(-A/2, A/2]` or `[0, A)` -/
+def windowAcc (A : F64) (sg : Bool) (a : Accum.Acc) : Accum.Acc :=
+  if sg then
+    (if F64.gt a.s (A / 2) then Accum.sub a A else if F64.le a.s (F64.neg A / 2) then Accum.add a A else a)
+  else
+    (if F64.ge a.s A then Accum.sub a A else if F64.lt a.s 0 then Accum.add a A else a)
+
+def areaReduceAcc (a : Accum.Acc) (A : F64) (crossings : Int) (rv sg : Bool) : Accum.Acc :=
+  windowAcc A sg (orientAcc rv (adjAcc a A crossings))
+
+/-- the same function instantiated at `T = real` (used by `TestPoint` / `TestEdge`) -/
+def adjF (a A : F64) (crossings : Int) : F64 :=
+  let a := F64.remainder a A
+  if crossings % 2 ≠ 0 then a + halfStep (F64.lt a 0) A else a
+def orientF (rv : Bool) (a : F64) : F64 := if !rv then a * F64.neg 1 else a
+def windowF (A : F64) (sg : Bool) (a : F64) : F64 :=
+  if sg then
+    (if F64.gt a (A / 2) then a - A else if F64.le a (F64.neg A / 2) then a + A else a)
+  else
+    (if F64.ge a A then a - A else if F64.lt a 0 then a + A else a)
+def areaReduceF (a A : F64) (crossings : Int) (rv sg : Bool) : F64 := windowF A sg (orientF rv (adjF a A crossings))
+
+/-- `area = real(0) + tempsum()` -/
+def report (a : Accum.Acc) : F64 := (0 : F64) + a.s
 
 end GeoVerif.Polygon
